@@ -401,7 +401,7 @@ pub fn random_run(rng: &mut Rng, n: usize, p: &RunProfile, cfg_b: bool) -> RunSp
     let mut rs = RunSpec::plain(api, n, Mode::Held);
     rs.reverse = rng.chance(p.reverse_pct, 100);
     if rng.chance(p.limit_pct, 100) {
-        rs.limit = Some(*rng.pick(&[0, 1, 1, 2, 2, 3, n.saturating_sub(1), n, n + 5]));
+        rs.limit = Some(*rng.pick(&[0, 1, 1, 2, 2, 3, n.saturating_sub(1), n, n + 5, 0, 1, 1, 2, 2, 3, n.saturating_sub(1), n, n + 5, usize::MAX, usize::MAX / 2, isize::MAX as usize, 1 << 40]));
     }
     if cfg_b && rng.chance(p.intr_pct, 100) {
         rs.intr = match rng.below(8) {
